@@ -261,7 +261,7 @@ def conv_family(tier, seed, meta=False, err=False, kinds=None, per_class=None, d
         for cn in comments:
             dl, cm = convgen.DELIM_SETS[dn], convgen.COMMENT_SETS[cn]
             layouts = []
-            if sysl and (tier == "thorough" or (dn == "eq" and cn == "hash")):
+            if sysl and ((tier == "thorough" and dn in ("eq", "sp", "speq", "none") and cn in ("hash", "both")) or (dn == "eq" and cn == "hash")):
                 sysls = [("sys%d" % i, L) for i, L in enumerate(convgen.systematic_layouts(dl, cm, meta=meta))]
                 if tier == "quick" and len(sysls) > sys_quick:
                     # fixed core (neighbour pairs) + a seed-rotated sample of the entry forms
